@@ -336,6 +336,13 @@ def check_guarded_fields(ctx, rid, cls, only_fields=None, doc=None, only_functio
                 kind = "guarded"
             if kind in ("mutex", "condvar", "selfsync", "protocol"):
                 continue
+            if kind == "guarded" and not ent.get("inferred") and re.match(r"^(const )?std::atomic(<|_)", st["m"].get("ftype", "")) and \
+                    not ent.get("atomic_ok"):
+                # tabled as a plain member under a mutex, declared std::atomic now: unlocked accesses are no data race any
+                # more, and whether the new lock-free protocol is right is not what this table can say
+                ctx.unknown("%s: %s::%s is tabled as guarded by %s but is declared %s now: its lock discipline is no longer described "
+                            "by tables/guards.json" % (rid, cls.split("::")[-1], name, ent.get("guard"), st["m"].get("ftype")))
+                continue
             pos = f.pos_of(st)
             acc, user = effective_access(eng, f, st)
             if kind == "lockset":
